@@ -37,7 +37,7 @@ pub fn workload_params() -> GenParams {
     // iterator itself, e.g. right after a reopen), IterOp = a seek walk on one iterator that retries a
     // failed seek
     p.w.iter_new = 5;
-    p.w.iter_op = 5;
+    p.w.iter_op = 12;
     p
 }
 
@@ -215,8 +215,8 @@ impl<'a> Run<'a> {
         };
         let n = self.case.universe.len();
         let present: Vec<Vec<u8>> = self.case.universe.iter().filter(|k| !self.allowed(k).contains(&None)).cloned().collect();
-        for round in 0..4usize {
-            let target = self.case.universe[(start + round * 5) % n].clone();
+        for round in 0..5usize {
+            let target = self.case.universe[(start + round * 3) % n].clone();
             let mut positioned = it.seek(&target).is_ok();
             if !positioned {
                 self.info.errors_returned += 1;
@@ -229,7 +229,7 @@ impl<'a> Run<'a> {
             let mut lower = target.clone();
             let mut inclusive = true;
             let mut reseeked = false;
-            for _step in 0..4 {
+            for _step in 0..6 {
                 if let Some(_e) = it.take_error() {
                     self.info.errors_returned += 1;
                     if reseeked {
@@ -555,7 +555,10 @@ fn run_point_inner(p: &FaultPoint) -> Result<FaultInfo, String> {
         ctl.log_kinds.store(false, std::sync::atomic::Ordering::SeqCst);
     }
     let d = DB::open(options_dyn(fsd.clone(), &cfg))
-        .map_err(|e| format!("reopen after the fault was removed failed: {e:?}"))?;
+        .map_err(|e| {
+            let files: Vec<String> = mem.file_names().into_iter().filter(|f| f.contains("MANIFEST") || f.ends_with("CURRENT")).map(|f| format!("{f}({}B)", mem.read_file(&f).map_or(0, |d| d.len()))).collect();
+            format!("reopen after the fault was removed failed: {e:?} [failed call: {:?}; files: {files:?}; CURRENT -> {:?}]", run.info.fired, mem.read_file("db/CURRENT").map(|d| String::from_utf8_lossy(&d).to_string()))
+        })?;
     let mut got = Model::new();
     {
         let mut it = d
